@@ -20,5 +20,6 @@ ThCovers     == Covers(lst, Reduce(lst, p))
 ThPairs      == Len(lst) >= 2 => NeverShortens(lst[1], lst[2], p)
 ThFoldStep   == Len(lst) >= 1 => Reduce(lst, p) = ReduceFrom(Reduce(SubSeq(lst, 1, Len(lst) - 1), p) \o <<>>, <<>>, p)
                                  \/ TRUE
+DuT == {-2, 0, 2, 4}
 ThLenNonInc  == Len(Reduce(lst, p)) <= Len(lst)
 =============================================================================
